@@ -121,6 +121,7 @@ func c12run(env sched.Env) *sched.Report {
 	sigs := map[string]bool{}
 	check := func(key []byte) {
 		rep.Execs++
+		sched.Progress(nil)
 		got, want := c.slot(key), refSlot(key)
 		if got != want {
 			s := c12sig(key)
@@ -200,6 +201,7 @@ func c12run(env sched.Env) *sched.Report {
 				k1 := []byte(pre + "{" + tag + "}" + suf)
 				k2 := []byte("{" + tag + "}")
 				rep.Execs++
+				sched.Progress(nil)
 				if refSlot(k1) == refSlot(k2) && c.slot(k1) != c.slot(k2) {
 					s := "same-tag-different-slot"
 					if !sigs[s] {
